@@ -14,16 +14,17 @@ LEVEL_TEXT = ("static analysis: (D1) _parse_records interpreted on symbolic reco
               'INFO/END when present else start + len(alt), one row per real alternate allele; (D2) _extract_genotype / _get_alt_count over the '
               'finite biallelic GT domain x depth source (FORMAT/DP, sum of AD, INFO/DP, none) x allele-count source (AD pair, scalar AD, CLCAD2,'
               ' AO tuple / scalar, none): zygosity 0 / 0.5 / 1, depth and alt count from the documented field in the documented precedence; (D3) '
-              'alt_freq = alt_count / depth (likewise for the normal), mirrored BAF = 0.5 +- |v - 0.5| by `above_half` (default: majority), '
-              'TumorBoost = 0.5 t/n where t < n else 1 - 0.5 (1 - t)/(1 - n), as exact rational identities; (D4) read_vcf keeps a record <=> '
-              "depth (the normal's when paired) >= min_depth (a missing depth counts as 0) and, when asked, not SOMATIC; load_het_snps passes "
-              "skip_somatic and the depth cut-off, drops tumour-variant / normal-reference genotypes, then keeps the (normal's) heterozygous "
-              'records -- also when every record is somatic; (D5) _choose_samples over sample lists x PEDIGREE pairs x requested ids: PEDIGREE '
-              'pairs first, else the given normal paired with every other sample, else all samples unpaired; restricted to the requested sample; '
-              'a requested control sample comes back alone; the first pair wins; unknown ids raise; (D6) TumorBoost values are stored back '
-              "through a Series built on the variants' own index, at both store sites (a fresh 0..n-1 index would be aligned by label onto the "
-              "wrong variants of a filtered table). Does not decide pysam's parsing, the median aggregation values, nor heterozygous()'s "
-              'documented fallback.')
+              'alt_freq = alt_count / depth (likewise for the normal), mirrored BAF = 0.5 +- |v - 0.5| by `above_half` (True / False / None = '
+              'majority, every combination with the majority side), TumorBoost = 0.5 t/n where t < n else 1 - 0.5 (1 - t)/(1 - n), as exact '
+              "rational identities; (D4) read_vcf keeps a record <=> depth (the normal's when paired) >= min_depth (a missing depth counts as 0) "
+              'and, when asked, not SOMATIC; load_het_snps passes skip_somatic and the depth cut-off, drops tumour-variant / normal-reference '
+              "genotypes, then keeps the (normal's) heterozygous records -- also when every record is somatic; (D5) _choose_samples over sample "
+              'lists x PEDIGREE pairs x requested ids: PEDIGREE pairs first, else the given normal paired with every other sample, else all '
+              'samples unpaired; restricted to the requested sample; a requested control sample comes back alone; the first pair wins; unknown '
+              "ids raise; (D6) TumorBoost values are stored back through a Series built on the variants' own index, at both store sites (a fresh "
+              "0..n-1 index would be aligned by label onto the wrong variants of a filtered table). (D7) do_call takes a segment's BAF from "
+              "baf_by_ranges over the final segments: after the ci / sem merges, before the cn filters. Does not decide pysam's parsing, the "
+              "median aggregation values, nor heterozygous()'s documented fallback.")
 TECHNIQUE = "abstract interpretation over finite genotype / field-presence domains and order positions; exact rational identities; index-provenance (fresh vs aligned Series) tracking"
 
 V = "skgenome.tabio.vcfio"
